@@ -51,3 +51,11 @@ M["resume_does_not_save_old"] = ("asynq/scoped_value.py", "    def resume(self):
 M["nonasync_pause_is_noop"] = ("asynq/contexts.py", "    def pause(self):\n        assert False, \"Task %s cannot yield while %s is active\" % (\n            self._active_task,\n            self,\n        )\n\n    def resume(self):\n        assert False", "    def pause(self):\n        pass\n\n    def resume(self):\n        assert False", ["C06"])
 M["nonasync_fails_on_enter_if_pending"] = ("asynq/contexts.py", "    def __enter__(self):\n        if not is_asyncio_mode():\n            self._active_task = enter_context(self)\n\n    def __exit__(self, typ, val, tb):", "    def __enter__(self):\n        if not is_asyncio_mode():\n            self._active_task = enter_context(self)\n            assert not asynq.scheduler.get_scheduler()._batches\n\n    def __exit__(self, typ, val, tb):", ["C06"])
 M["attr_override_pause_noop_second_time"] = ("asynq/scoped_value.py", "    def pause(self):\n        setattr(self._target, self._property_name, self._old_value)", "    def pause(self):\n        if getattr(self, '_p', 0) < 2:\n            setattr(self._target, self._property_name, self._old_value)\n        self._p = getattr(self, '_p', 0) + 1", ["C07"])
+
+# ---- C08 -------------------------------------------------------------------------------------
+M["active_task_not_restored"] = ("asynq/scheduler.py", "        self.active_task = old_task\n", "        pass\n", ["C08"])
+M["stack_limit_no_reset"] = ("asynq/scheduler.py", "                self.reset()\n                debug.dump(self)", "                debug.dump(self)", [])   # masked by wait_for dropping its entries when an exception escapes
+M["computed_future_not_popped"] = ("asynq/scheduler.py", "            if task.is_computed():\n                self._tasks.pop()\n            elif isinstance(task, AsyncTask):", "            if task.is_computed() and len(self._tasks) != init_num_tasks + 3:\n                self._tasks.pop()\n            elif task.is_computed():\n                self._tasks.insert(0, self._tasks.pop())\n                init_num_tasks += 1\n            elif isinstance(task, AsyncTask):", ["C08"])
+M["d10_reverted"] = ("asynq/scheduler.py", "        if task.is_computed():\n            # A context failed to resume", "        if False:\n            # A context failed to resume", ["C08"])
+M["d12_reverted"] = ("asynq/scheduler.py", "            del self._tasks[num_tasks:]\n", "            pass\n", ["C08"])
+M["d1_reverted"] = ("asynq/scheduler.py", "                    if not task.is_computed():\n                        raise\n                self._tasks.pop()", "                    raise\n                self._tasks.pop()", ["C01", "C02", "C08"])
